@@ -28,20 +28,25 @@ inductive VRes where
   | err
 deriving Repr, DecidableEq
 
-/-- one step of findValueAtPath from a struct / top value -/
+/-- looking a key up in a struct: the regular selector, then the optional one (getSelectorForField + LookupPath) -/
+def stepStruct (isOpen : Bool) (fs : List CField) (key : String) : Option CTy :=
+  let wantsHidden := key.startsWith "_" && !key.contains '-'
+  -- a hidden field is only reachable through cue.Hid; a quoted "_x" is a regular field
+  let hit := fs.find? fun f =>
+    f.name == key && (if f.hidden then wantsHidden && f.isReg else true)   -- `_k?` / `_k!` are not found (observed)
+  match hit with
+  | some f => some f.ty
+  | none => if isOpen then some (.prim "top") else none
+
+/-- one step of findValueAtPath -/
 def stepKey (v : CTy) (key : String) : Option CTy :=
   match v with
   | .prim "top" => some (.prim "top")
-  | .struct isOpen fs =>
-    let wantsHidden := key.startsWith "_" && !key.contains '-'
-    -- a hidden field is only reachable through cue.Hid; a quoted "_x" is a regular field
-    let hit := fs.find? fun f =>
-      f.name == key && (if f.hidden then wantsHidden && f.isReg else true)   -- `_k?` / `_k!` are not found (observed)
-    match hit with
-    | some f => some f.ty
-    | none => if isOpen then some (.prim "top") else none
-  -- a key applied to an open list is swallowed by the cue.AnyIndex fallback: the element type is returned
-  | .list true e => some e
+  | .struct isOpen fs => stepStruct isOpen fs key
+  -- a key applied to a list `[...T]` or `[T]` names a field of the element type T (cue.AnyIndex or the first element, then the
+  -- key in the element)
+  | .list _ (.prim "top") => some (.prim "top")
+  | .list _ (.struct isOpen fs) => stepStruct isOpen fs key
   | _ => none
 
 def findValueAtPath : CTy → List String → Option CTy
